@@ -328,7 +328,14 @@ class RowInterp:
                 return tuple(args[0]) if f.id == "tuple" else list(args[0])
             if isinstance(fn, ast.FunctionDef):
                 names = [a.arg for a in fn.args.args]
-                sub = RowInterp(fn, dict(zip(names, args)), self.mps, {**self.helpers, **{k: v for k, v in env.items() if isinstance(v, ast.FunctionDef)}})
+                henv = dict(zip(names, args))
+                for k in e.keywords:
+                    if k.arg is not None:
+                        henv[k.arg] = self.ev(k.value, env)
+                for a, d in zip(reversed(fn.args.args), reversed(fn.args.defaults)):
+                    if a.arg not in henv:
+                        henv[a.arg] = self.ev(d, {})
+                sub = RowInterp(fn, henv, self.mps, {**self.helpers, **{k: v for k, v in env.items() if isinstance(v, ast.FunctionDef)}})
                 return sub.run()
             raise RowUnknown(f"call {f.id}")
         if isinstance(f, ast.Attribute):
